@@ -271,6 +271,38 @@ theorem dynamic_follows (fam : Family) (ori : Nat × Nat) (st : State) (s : Size
   | error e => simp [renderObs, hst']
   | ok p => obtain ⟨w, h⟩ := p; simp [renderObs, hst']
 
+/-- `setter_recomputes`: `image.width = v` (`image.height = v`) is `set_size(width=v)`
+    (`set_size(height=v)`) whatever the current setting is — also when the image already has a fixed
+    size whose width (height) equals `v`: the other dimension is recomputed by `_valid_size` for the
+    terminal and cell ratio current at that moment -/
+theorem setter_recomputes (fam : Family) (ori : Nat × Nat) (st : State) (v : Int) (hv : 0 < v) :
+    (step fam ori st (.setWidth (.int v))).1.size =
+      (match validSize fam st.env ori (.int v.toNat) .none defaultFrame with
+       | .ok (w, h) => .fixed w h
+       | .error _ => st.size) ∧
+    (step fam ori st (.setHeight (.int v))).1.size =
+      (match validSize fam st.env ori .none (.int v.toNat) defaultFrame with
+       | .ok (w, h) => .fixed w h
+       | .error _ => st.size) := by
+  have hv' : ¬ v ≤ 0 := by omega
+  constructor
+  · simp only [step, setSize, setSize.setSize2, setSize.setSize3, hv', if_false, SArg.toArg]
+    cases validSize fam st.env ori (.int v.toNat) .none defaultFrame with
+    | error e => rfl
+    | ok p => rfl
+  · simp only [step, setSize, setSize.setSize2, setSize.setSize3, hv', if_false, SArg.toArg]
+    cases validSize fam st.env ori .none (.int v.toNat) defaultFrame with
+    | error e => rfl
+    | ok p => rfl
+
+/-- the seeded scenario: a manual (40, 3), then `width = 40`; width 60, ratio 0.5 → 0.25, width 60 again -/
+example :
+    let st : State := ⟨.dynamic .fit, ⟨80, 30, none, some (divNat 1 2)⟩⟩
+    (trace .text (300, 200) st [.sizeTuple 40 3, .setWidth (.int 40), .setWidth (.int 60),
+        .setRatio (.value (divNat 1 4)), .setWidth (.int 60)]).map (·.2.1)
+      = [.fixed 40 3, .fixed 40 14, .fixed 60 20, .fixed 60 20, .fixed 60 10] := by
+  rfl
+
 /-- `rejected_ratio_keeps_state`: a `set_cell_ratio` call that raises — a value ≤ 0 (`ValueError`),
     a non-number (`TypeError`), FIXED/DYNAMIC without a known cell size (`TermImageError`) — leaves
     the whole state (size setting *and* environment, in particular the ratio last accepted) as it was,
